@@ -220,6 +220,7 @@ def run(repo, chk):
     rule_e(repo, chk)
     rule_f(repo, chk)
     rule_g(repo, chk)
+    rule_h(repo, chk)
 
 
 # ---------------------------------------------------------------------------
@@ -713,3 +714,92 @@ def rule_g(repo, chk):
            loc(f, f.node), discr='override-consulted')
     loops = [n for n in walk_no_defs(f.node) if isinstance(n, ast.For) and src(n.iter) == f'{cls_p}.__bases__']
     chk.ob('g', f.ref, 'every direct base class is visited', bool(loops), loc(f, f.node), discr='all-bases', nontrivial=False)
+
+
+def rule_h(repo, chk):
+    """How handlers get into and out of the tables."""
+    chk.rule('C01.h', 'addHandler files a handler under every name it declares ("*" table for catch-all handlers, the globals for channel "*"); '
+                      'removeHandler takes it out of every name; handler() records names/channel/priority/override as given; Component methods '
+                      'become handlers named after themselves')
+    from .common import HANDLERS
+    a = repo.func(MANAGER, 'Manager.addHandler')
+    chk.touch(a)
+    g = a.cfg()
+    mv = 'method'
+
+    def files(n, table, key):
+        """statement *n* puts the handler into `table` under `key` (setdefault(...).add / [key].add / |= forms)."""
+        if n.kind != 'stmt' or n.ast is None:
+            return False
+        for c in calls_in(n.ast):
+            if isinstance(c.func, ast.Attribute) and c.func.attr == 'add' and [src(x) for x in c.args] == [mv]:
+                r = src(c.func.value)
+                if table in r and (key is None or key in r):
+                    return True
+        return False
+
+    loops = [n for n in g.nodes if n.kind == 'for' and src(n.ast.iter) == f'{mv}.names']
+    ok = False
+    for lp in loops:
+        nv = src(lp.ast.target)
+        adds = [n for n in g.nodes if ('loop', lp.ast) in n.ctx and files(n, 'self._handlers', nv)]
+        tests = [n for n in g.nodes if n.kind == 'test' and ('loop', lp.ast) in n.ctx]
+        brk = [n for n in g.nodes if n.kind == 'stmt' and ('loop', lp.ast) in n.ctx and isinstance(n.ast, (ast.Break, ast.Continue, ast.Return))]
+        ok = bool(adds) and not tests and not brk
+    chk.ob('h', a.ref, 'a handler is filed under every event name it declares (no name skipped)', ok, loc(a, a.node), discr='all-names-added')
+    star = [n for n in g.nodes if files(n, 'self._handlers', "'*'")]
+    glob = [n for n in g.nodes if files(n, 'self._globals', None)]
+    nonames = pat.test_edge(lambda tt, pol: (pol == 'F' and src(tt) == f'{mv}.names') or (pol == 'T' and src(tt) in (f'not {mv}.names',)))
+    okg = bool(glob) and all(pat.guarded_by(g, n, pat.test_edge(lambda tt, pol: pat.fact_matches(pat.compare_fact(tt, pol), f'{mv}.channel', ('==',), "'*'"))) is None and
+                             pat.guarded_by(g, n, nonames) is None for n in glob)
+    oks = bool(star) and all(pat.guarded_by(g, n, nonames) is None for n in star)
+    chk.ob('h', a.ref, 'a handler without names goes to the "*" table, or to the globals exactly when it also listens on channel "*"', okg and oks, loc(a, a.node),
+           discr='catch-all-placement')
+    p = Q.escapes(g, [g.entry], lambda n: n in star or n in glob or any(n.kind == 'for' and n in loops for _ in [0]))
+    chk.ob('h', a.ref, 'every handler is filed somewhere', p is None, loc(a, a.node), path=pat.path_lines(p) if p else None, discr='always-filed')
+    r = repo.func(MANAGER, 'Manager.removeHandler')
+    chk.touch(r)
+    gr = r.cfg()
+    names_def = [n for n in gr.nodes if n.kind == 'stmt' and isinstance(n.ast, ast.Assign) and isinstance(n.ast.targets[0], ast.Name)
+                 and f'{r.params[1]}.names' in src(n.ast.value)]
+    okn = bool(names_def) and isinstance(names_def[0].ast.value, ast.IfExp) and f'{r.params[2]} is None' in src(names_def[0].ast.value.test).replace('is not', 'is!')
+    nmv = src(names_def[0].ast.targets[0]) if names_def else 'names'
+    loops = [n for n in gr.nodes if n.kind == 'for' and src(n.ast.iter) == nmv]
+    okr = False
+    for lp in loops:
+        nv = src(lp.ast.target)
+        rem = [n for n in gr.nodes if n.kind == 'stmt' and ('loop', lp.ast) in n.ctx and
+               any(isinstance(c.func, ast.Attribute) and c.func.attr in ('remove', 'discard') and [src(x) for x in c.args] == [r.params[1]] and
+                   'self._handlers' in src(c.func.value) and nv in src(c.func.value) for c in calls_in(n.ast))]
+        first = [e.dst for e in lp.succ if e.kind == 'T']
+        rest = [f for f in first if f not in rem]
+        p = Q.escapes(gr, rest, lambda n: n in rem, extra_exit=lambda n: n is lp) if rest else None
+        brk = [n for n in gr.nodes if n.kind == 'stmt' and ('loop', lp.ast) in n.ctx and isinstance(n.ast, (ast.Break, ast.Return))]
+        okr = bool(rem) and p is None and not brk
+    chk.ob('h', r.ref, 'removeHandler removes the handler from every name it was filed under (or from the one name given)', okr and okn, loc(r, r.node),
+           discr='all-names-removed')
+    w = repo.func(HANDLERS, 'handler.wrapper')
+    chk.touch(w)
+    defaults = {'channel': ('None', None), 'override': ('False',), 'priority': ('0',)}
+    got = {}
+    for n in walk_no_defs(w.node):
+        if isinstance(n, ast.Assign) and len(n.targets) == 1 and isinstance(n.targets[0], ast.Attribute) and src(n.targets[0].value) == w.params[0]:
+            got.setdefault(n.targets[0].attr, []).append(n.value)
+    okw = any(src(v) == 'names' for v in got.get('names', [])) and any(src(v) == 'True' for v in got.get('handler', []))
+    for k, dfl in defaults.items():
+        vs = [v for v in got.get(k, []) if isinstance(v, ast.Call) and src(v.func) == 'kwargs.get' and v.args and src(v.args[0]) == repr(k)]
+        okw = okw and bool(vs) and all((src(v.args[1]) if len(v.args) > 1 else None) in dfl for v in vs)
+    chk.ob('h', w.ref, 'handler() records names, channel, priority and override exactly as given (defaults: no channel, 0, False)', okw, loc(w, w.node),
+           detail=str({k: [src(v) for v in vs] for k, vs in got.items()}), discr='decorator-attributes')
+    m = repo.func(HANDLERS, 'HandlerMetaClass.__init__')
+    chk.touch(m)
+    sets = [c for c in calls_in(m.node) if call_name(c) == 'setattr']
+    okm = bool(sets) and any(src(c.args[2]).replace(' ', '') == 'handler(name)(callable)' and src(c.args[1]) == 'name' for c in sets) and \
+        "name.startswith('_')" in src(m.node) and "hasattr(callable, 'handler')" in src(m.node)
+    chk.ob('h', m.ref, 'public methods of Component subclasses that are not handlers yet become handlers for the event named like the method', okm, loc(m, m.node),
+           discr='implicit-handlers')
+    ini = repo.func(COMPONENTS, 'BaseComponent.__init__')
+    chk.touch(ini)
+    oki = any(isinstance(n, ast.For) and 'getmembers(self)' in src(n.iter) and any(r_ == 'self' and src(c.args[0]) == src(n.target.elts[1]) for r_, c in pat.method_calls(n, 'addHandler'))
+              for n in walk_no_defs(ini.node) if isinstance(n, ast.For) and isinstance(n.target, ast.Tuple))
+    chk.ob('h', ini.ref, 'a component registers every member marked as handler when it is created', oki, loc(ini, ini.node), discr='members-registered')
